@@ -60,6 +60,8 @@ RULE_TEXT = {
     "Q10": "no body running synchronously on the reducer thread constructs an Effect: a dequeued action is never re-posted by the store",
     "E8": "the store does not cap its worker pool below reducer + 2 workers (constant sizes only; the machine default is accepted)",
     "E7": "on the reducer thread the effects vector is only pushed to, measured, shown to the hooks and drained by the hand-over loop",
+    "Q11": "one slot of the dispatch queue is one action: queue items are Action(a) | Exit(..) only, built in place at every enqueue on the dispatch sender",
+    "L3": "no sleep / park / spin / condvar wait while a lock of the library is held",
     "Q7": "the consumer's receive call returns crossbeam's recv() result directly, without buffering or re-ordering",
     "SU6": "no user callback runs between reading the subscriber list and the delivery loop of the same pass",
     "SU5": "the shutdown release (unsubscribe-all + clear) is reachable only from the end of the reducer thread, never from client-callable entry points",
@@ -142,15 +144,17 @@ def _ch2_block(ctx, rep):
 
 PROPS = {
     "C01": {
-        "rules": R(E.rp1_reducer_thread_never_unwraps_a_shutdown_slot, r(DL.lk0_blocking_acquisitions, only=r"StoreImpl\\.(reducer-list|state-cell|sender-slot|pool-slot)|all-acquisitions|floor"), Q.q1_one_queue_one_consumer, Q.q2_dequeue_sites,
+        "rules": R(E.rp1_reducer_thread_never_unwraps_a_shutdown_slot, r(DL.lk0_blocking_acquisitions, only=r"StoreImpl\.(reducer-list|state-cell|sender-slot|pool-slot)|all-acquisitions|floor"), Q.q1_one_queue_one_consumer, Q.q2_dequeue_sites,
                    r(Q.q6_sequential_consumer, only=r"event-graph|receive events|REDUCE"),
                    r(P.pi1_one_pass_per_action, only=r"receive events|READ_STATE|WRITE_STATE|REDUCE"),
                    r(PI3_REDUCE, name="PI3"), P.pi4_reducer_threading, P.pi5_write_back,
                    r(P.pi6_action_identity, only=r"REDUCE"), P.s1_single_writer, P.s2_initial_value,
                    T.st1_stop_is_close_plus_join, T.st3_loop_exits, r(_ch1_block, name="CH1"), r(_ch2_block, name="CH2"),
                    r(M.mw_table, only=r"flags:before_reduce:(ContinueAction|BreakChain|Err)|MW2:.*before_reduce"),
-                   S.cb1_callbacks_hold_no_reentrant_lock, E.e6_reducer_never_enqueues),
-        "explanation": "Static decision on the compiler's MIR: single consumer of one queue (Q1,Q2,Q6); per received action exactly one chain pass that threads the chain variable through every registered reducer in order (PI1,PI3,PI4,PI6); only a before_reduce DoneAction keeps an action from the reducers (MW flags, MW2); the chain's result is written back unconditionally by the only writer of the state cell (PI5,S1,S2); stop() joins the consumer (ST1,ST3); the blocking arm never discards (CH1,CH2). Premises of the fold argument in DESIGN.md C01; behaviour follows from these premises plus the trusted base, nothing is executed. User callbacks never run with the state lock held, on_notify never with the list lock (CB1): a callback that reads the state or (un)subscribes cannot stop the thread that reduces.",
+                   S.cb1_callbacks_hold_no_reentrant_lock, E.e6_reducer_never_enqueues,
+                   r(Q.q3_enqueue_under_sender_lock, only=r"send-under-lock|sender-cloned-out-of-slot|sender-lock-exclusive|floor"), r(Q.q4_close, only=r"exit-after-take|take-under-lock|floor"),
+                   r(DL.l3_no_waiting_under_a_lock, only=r"reducer-thread-never-parks")),
+        "explanation": "Static decision on the compiler's MIR: single consumer of one queue (Q1,Q2,Q6); per received action exactly one chain pass that threads the chain variable through every registered reducer in order (PI1,PI3,PI4,PI6); only a before_reduce DoneAction keeps an action from the reducers (MW flags, MW2); the chain's result is written back unconditionally by the only writer of the state cell (PI5,S1,S2); stop() joins the consumer (ST1,ST3); the blocking arm never discards (CH1,CH2). Premises of the fold argument in DESIGN.md C01; behaviour follows from these premises plus the trusted base, nothing is executed. User callbacks never run with the state lock held, on_notify never with the list lock (CB1): a callback that reads the state or (un)subscribes cannot stop the thread that reduces. Acceptance and closing are linearised by the sender lock: every enqueue happens under it and close() empties the slot before the Exit marker goes in, so no accepted action lands behind Exit (Q3,Q4).",
         "not_decided": ["FIFO/no-loss of crossbeam recv (trusted)"],
     },
     "C02": {
@@ -164,7 +168,7 @@ PROPS = {
         "not_decided": ["linearizability / FIFO of the bounded channel (trusted)"],
     },
     "C03": {
-        "rules": R(E.rp1_reducer_thread_never_unwraps_a_shutdown_slot, r(DL.lk0_blocking_acquisitions, only=r"StoreImpl\\.(subscriber-list|middleware-list)|all-acquisitions|floor"), S.su5_release_only_on_reducer_thread, r(P.pi1_one_pass_per_action, only=r"receive events|single-loop:NOTIFY"),
+        "rules": R(E.rp1_reducer_thread_never_unwraps_a_shutdown_slot, r(DL.lk0_blocking_acquisitions, only=r"StoreImpl\.(subscriber-list|middleware-list)|all-acquisitions|floor"), S.su5_release_only_on_reducer_thread, r(P.pi1_one_pass_per_action, only=r"receive events|single-loop:NOTIFY"),
                    r(P.pi6_action_identity, only=r"NOTIFY"),
                    r(S.su1_mutators, drop=r"removal:clear|floor:clear"), P.n1_flag, P.n2_guard, P.n3_payload,
                    r(M.mw_table, only=r"(flow|flags):before_dispatch|arm-present:before_dispatch|MW2:.*before_dispatch|count:before_dispatch"),
@@ -176,34 +180,37 @@ PROPS = {
         "not_decided": ["chains mixing Dispatch and Keep beyond 'last decides'"],
     },
     "C04": {
-        "rules": R(E.rp1_reducer_thread_never_unwraps_a_shutdown_slot, r(DL.lk0_blocking_acquisitions, only=r"StoreImpl\\.(sender-slot|pool-slot|subscriber-list)|ChanneledWrapper|all-acquisitions|floor"), Q.q3_enqueue_under_sender_lock, Q.q4_close,
+        "rules": R(E.rp1_reducer_thread_never_unwraps_a_shutdown_slot, r(DL.lk0_blocking_acquisitions, only=r"StoreImpl\.(sender-slot|pool-slot|subscriber-list)|ChanneledWrapper|all-acquisitions|floor"), Q.q3_enqueue_under_sender_lock, Q.q4_close,
                    r(C.ch2_result_tells_enqueued, only=r"err-means-not-enqueued|ok-means-enqueued:BlockOnFull|floor"), r(_ch1_block, name="CH1"),
                    S.su3_shutdown_release, T.st1_stop_is_close_plus_join, T.st2_closed_means_err, T.st3_loop_exits,
                    T.st4_callbacks_live_in_the_loop, T.st5_idempotent, r(C.dr1_result_mapping, only=r"result-maps-Ok|result-ignored|one-enqueue-attempt|floor"),
-                   r(X.ch_channeled_release, name="R2"), S.lc3_release_under_list_lock, E.e6_reducer_never_enqueues, r(X.ch_channeled, only=r"subscribed-defaults", name="R5")),
-        "explanation": "Static decision: accepted actions are enqueued under the sender lock (Q3,CH2), close() empties the slot under that lock before Exit is enqueued (Q4), the loop ends only on Exit/disconnect and then releases every subscriber, which joins channeled threads after disconnecting them (ST3,SU3,R2), stop() = close + join of the pool on every path without holding a store lock (ST1), closed => Err without effect and Err only when nothing was enqueued (ST2,CH2,DR1), callbacks exist only inside the joined loop (ST4), second close/stop do nothing (ST5). The blocking arm cannot give up (CH1); every release runs under the list lock in its calling context (LC3). The reducer thread never enqueues into (or fails through) its own queue, so a queued action cannot kill or block the loop before Exit (E6); subscribed() keeps its blocking default, so a flushed channeled subscriber has seen every notification (R5).",
+                   r(X.ch_channeled_release, name="R2"), S.lc3_release_under_list_lock, E.e6_reducer_never_enqueues, r(X.ch_channeled, only=r"subscribed-defaults", name="R5"),
+                   r(P.pi1_one_pass_per_action, only=r"every-pass-has|receive events"), M.n4_notify_phase_not_bypassed, M.mw5_hooks_on_every_action,
+                   r(DL.l3_no_waiting_under_a_lock, only=r"reducer-thread-never-parks")),
+        "explanation": "Static decision: accepted actions are enqueued under the sender lock (Q3,CH2), close() empties the slot under that lock before Exit is enqueued (Q4), the loop ends only on Exit/disconnect and then releases every subscriber, which joins channeled threads after disconnecting them (ST3,SU3,R2), stop() = close + join of the pool on every path without holding a store lock (ST1), closed => Err without effect and Err only when nothing was enqueued (ST2,CH2,DR1), callbacks exist only inside the joined loop (ST4), second close/stop do nothing (ST5). The blocking arm cannot give up (CH1); every release runs under the list lock in its calling context (LC3). The reducer thread never enqueues into (or fails through) its own queue, so a queued action cannot kill or block the loop before Exit (E6); subscribed() keeps its blocking default, so a flushed channeled subscriber has seen every notification (R5). Every received action goes through the whole pass - state read, reducers, write-back, hooks, subscriber loop - before the next receive: none is parked or skipped (PI1,MW5,N4).",
         "not_decided": ["the 3 s timeout", "two racing shutdowns", "shutdown_join semantics (trusted)"],
     },
     "C05": {
-        "rules": R(r(DL.lk0_blocking_acquisitions, only=r"StoreImpl\\.sender-slot|all-acquisitions|floor"), r(_ch1_block, name="CH1"), r(_ch2_block, name="CH2"), C.ch5_capacity, Q.q2_dequeue_sites,
+        "rules": R(r(DL.lk0_blocking_acquisitions, only=r"StoreImpl\.sender-slot|all-acquisitions|floor"), r(_ch1_block, name="CH1"), r(_ch2_block, name="CH2"), C.ch5_capacity, Q.q2_dequeue_sites,
                    B.b1_capacity_zero_rejected, Q.q5_synchronous_enqueue, Q.q9_dispatch_fails_only_when_closed,
                    Q.q3_enqueue_under_sender_lock,
                    r(DL.l2_wait_for, only=r"consumer-needs:.*held=StoreImpl\.sender-slot|floor"), S.cb1_callbacks_hold_no_reentrant_lock,
-                   r(T.st3_loop_exits, only=r"exits-only-on-exit-or-disconnect|none-means-disconnected|count:|floor")),
-        "explanation": "Static decision: the dispatch queue is bounded(capacity) with the configured value unmodified (CH5) and >= 1 (B1); the BlockOnFull arm consists of exactly one unbounded blocking send (CH1,CH2) executed synchronously by the caller (Q5); nothing but the consumer removes items (Q2). Waiting/wake-up timing is crossbeam's (trusted). Producers enqueue under the sender lock (Q3) and the reducer thread never needs that lock (L2 on the sender slot). The consumer keeps taking items until the Exit marker or disconnection (ST3): a blocked producer is always woken, an accepted action is not left behind by a loop that gave up.",
+                   r(T.st3_loop_exits, only=r"exits-only-on-exit-or-disconnect|none-means-disconnected|count:|floor"),
+                   Q.q11_one_slot_one_action, r(DL.l3_no_waiting_under_a_lock, drop=r"no-unmodelled-blocking-wait")),
+        "explanation": "Static decision: the dispatch queue is bounded(capacity) with the configured value unmodified (CH5) and >= 1 (B1); the BlockOnFull arm consists of exactly one unbounded blocking send (CH1,CH2) executed synchronously by the caller (Q5); nothing but the consumer removes items (Q2). Waiting/wake-up timing is crossbeam's (trusted). Producers enqueue under the sender lock (Q3) and the reducer thread never needs that lock (L2 on the sender slot). The consumer keeps taking items until the Exit marker or disconnection (ST3): a blocked producer is always woken, an accepted action is not left behind by a loop that gave up. One queue slot is one action (Q11), and nothing sleeps or polls while holding a lock of the library (L3).",
         "not_decided": ["'resumes as soon as' / eventual progress (liveness of crossbeam)", "the capacity bound itself is crossbeam's guarantee"],
     },
     "C06": {
         "rules": R(r(_ch1_drop, name="CH1"), C.ch0_never_disconnected, C.ch2_result_tells_enqueued, C.ch3_drop_accounting, C.ch4_retry_identity,
                    Q.q3_enqueue_under_sender_lock, r(Q.q4_close, only=r"exit-after-take|take-under-lock|floor"), r(C.dr1_result_mapping, only=r"result-maps-Err|result-ignored|one-enqueue-attempt|floor"),
                    r(ME.me7_monotone, only=r"action_dropped"), r(C.ch5_capacity, only=r"capacity-(unmodified|modified|passed-through|from-field):|only-bounded|count:|floor"),
-                   r(B.bu1_write_sets, only=r":policy$|floor"), r(B.bu3_pass_through, only=r"policy|floor"), C.ch6_immutable_config),
-        "explanation": "Static decision by exhaustive path enumeration of the send wrapper: drop arms contain only non-blocking queue operations (CH1); Ok iff enqueued (CH2); each popped/rejected action is counted by exactly one action_dropped call (CH3; the counter is one fetch_add, ME7); DropOldest pops the head only on Full and re-sends the bounced item (CH4) with producers serialised by the sender lock (Q3), and close() empties the slot before Exit is enqueued so that no Ok dispatch lands behind Exit, where it would be neither taken nor counted (Q3 on close, Q4); Dispatcher::dispatch maps Err to Err (DR1). The queue has the configured capacity (CH5), the configured policy reaches it (BU1,BU3), the DropLatest arm removes nothing from the queue (CH1).",
+                   r(B.bu1_write_sets, only=r":policy$|floor"), r(B.bu3_pass_through, only=r"policy|floor"), C.ch6_immutable_config, Q.q2_dequeue_sites, Q.q11_one_slot_one_action),
+        "explanation": "Static decision by exhaustive path enumeration of the send wrapper: drop arms contain only non-blocking queue operations (CH1); Ok iff enqueued (CH2); each popped/rejected action is counted by exactly one action_dropped call (CH3; the counter is one fetch_add, ME7); DropOldest pops the head only on Full and re-sends the bounced item (CH4) with producers serialised by the sender lock (Q3), and close() empties the slot before Exit is enqueued so that no Ok dispatch lands behind Exit, where it would be neither taken nor counted (Q3 on close, Q4); Dispatcher::dispatch maps Err to Err (DR1). The queue has the configured capacity (CH5), the configured policy reaches it (BU1,BU3), the DropLatest arm removes nothing from the queue (CH1). Nothing but the consumer's receive and the DropOldest head-pop takes items out of the queue, and one slot is one action (Q2,Q11).",
         "not_decided": ["which action a concurrent consumer makes the victim (left open by the statement)"],
         "exhaustive": True,
     },
     "C07": {
-        "rules": R(r(DL.lk0_blocking_acquisitions, only=r"StoreImpl\\.(reducer-list|middleware-list|subscriber-list)|all-acquisitions|floor"), Q.q1_one_queue_one_consumer, Q.q6_sequential_consumer,
+        "rules": R(r(DL.lk0_blocking_acquisitions, only=r"StoreImpl\.(reducer-list|middleware-list|subscriber-list)|all-acquisitions|floor"), Q.q1_one_queue_one_consumer, Q.q6_sequential_consumer,
                    r(P.pi1_one_pass_per_action, only=r"receive events|single-loop"),
                    r(P.pi2_phase_order, only=r"order:(HOOK|REDUCE|NOTIFY)[^<]*<(HOOK|REDUCE|NOTIFY)"), P.pi3_full_forward_iteration, T.st4_callbacks_live_in_the_loop,
                    r(S.su1_mutators, drop=r"removal:clear|floor:clear"), S.rg1_registration_order,
@@ -214,38 +221,40 @@ PROPS = {
         "not_decided": ["run-time thread identity (decided as: no callback site outside the reducer thread's synchronous call tree)"],
     },
     "C08": {
-        "rules": R(r(DL.lk0_blocking_acquisitions, only=r"StoreImpl\\.state-cell|all-acquisitions|floor"), P.s1_single_writer, P.s2_initial_value, r(P.pi5_write_back, only=r"written-value-is-chain-result|write-back-unconditional|floor"),
+        "rules": R(r(DL.lk0_blocking_acquisitions, only=r"StoreImpl\.state-cell|all-acquisitions|floor"), P.s1_single_writer, P.s2_initial_value, r(P.pi5_write_back, only=r"written-value-is-chain-result|write-back-unconditional|floor"),
                    Q.q1_one_queue_one_consumer, r(P.pb1_publish_before_notify, only=r"NOTIFY|floor"),
                    r(P.pi1_one_pass_per_action, only=r"receive events|at-most-once-per-pass:WRITE_STATE|every-pass-has:WRITE_STATE|count:WRITE_STATE"),
-                   r(S.cb1_callbacks_hold_no_reentrant_lock, only=r"no-state-lock|floor")),
-        "explanation": "Static decision: the state cell is assigned only whole chain results by one thread in reduce order (S1,PI5,Q1,PI1), readers clone it under its lock (S1), it starts as the configured initial state (S2), and the write-back lies on every path from the receive to a subscriber call of the same pass (PB1). The write-back is unconditional (PI5,PI1) and no callback runs under the state lock (CB1).",
+                   r(S.cb1_callbacks_hold_no_reentrant_lock, only=r"no-state-lock|floor"),
+                   r(T.st4_callbacks_live_in_the_loop, only=r"NOTIFY|floor")),
+        "explanation": "Static decision: the state cell is assigned only whole chain results by one thread in reduce order (S1,PI5,Q1,PI1), readers clone it under its lock (S1), it starts as the configured initial state (S2), and the write-back lies on every path from the receive to a subscriber call of the same pass (PB1). The write-back is unconditional (PI5,PI1) and no callback runs under the state lock (CB1). Subscribers are told about an action only from the reducer thread's loop, i.e. after that write-back (ST4): no client-side replay / refresh path can announce an action whose state is not published yet.",
         "not_decided": [],
     },
     "C09": {
-        "rules": R(r(DL.lk0_blocking_acquisitions, only=r"StoreImpl\\.subscriber-list|ChanneledWrapper|all-acquisitions|floor"), r(S.su1_mutators, drop=r"append:|floor:push"), S.su2_unsubscribe, S.su3_shutdown_release, S.su5_release_only_on_reducer_thread, S.su6_snapshot_right_before_delivery, S.su4_delivery_atomic_with_membership,
+        "rules": R(r(DL.lk0_blocking_acquisitions, only=r"StoreImpl\.subscriber-list|ChanneledWrapper|all-acquisitions|floor"), r(S.su1_mutators, drop=r"append:|floor:push"), S.su2_unsubscribe, S.su3_shutdown_release, S.su5_release_only_on_reducer_thread, S.su6_snapshot_right_before_delivery, S.su4_delivery_atomic_with_membership,
                    S.lc1_unsubscribe_sites, S.lc3_release_under_list_lock, r(X.ch_channeled_release, name="R2"), r(PI3_NOTIFY, name="PI3"),
-                   r(Q.q4_close, only=r"close-empties-slot|open-store-emptied-on-every-path|floor")),
-        "explanation": "Static decision: unsubscribe removes exactly the identical element of its own store's list under the list lock and releases it once (SU1,SU2); whatever is still listed at shutdown is released once and the list cleared in the same critical section on every path to the end of the reducer thread (SU3); no third release path (LC1); every listed element is visited on each notifying pass (PI3); channeled release is idempotent (R2). Delivery atomic with membership (SU4) is a known finding. Releases run under the list lock in context (LC3), the snapshot is taken right before delivery (SU6), the shutdown release survives a poisoned list lock (SU3). close() empties the sender slot on every path that finds the store open, so the reducer thread reaches its shutdown release through Exit or disconnection (Q4).",
+                   r(Q.q4_close, only=r"close-empties-slot|open-store-emptied-on-every-path|floor"), M.n4_notify_phase_not_bypassed),
+        "explanation": "Static decision: unsubscribe removes exactly the identical element of its own store's list under the list lock and releases it once (SU1,SU2); whatever is still listed at shutdown is released once and the list cleared in the same critical section on every path to the end of the reducer thread (SU3); no third release path (LC1); every listed element is visited on each notifying pass (PI3); channeled release is idempotent (R2). Delivery atomic with membership (SU4) is a known finding. Releases run under the list lock in context (LC3), the snapshot is taken right before delivery (SU6), the shutdown release survives a poisoned list lock (SU3). close() empties the sender slot on every path that finds the store open, so the reducer thread reaches its shutdown release through Exit or disconnection (Q4). With a Dispatch answer and no veto every pass reaches the subscriber loop before the next receive - notifications are not parked for later (N4).",
         "not_decided": [],
     },
     "C10": {
-        "rules": R(r(DL.lk0_blocking_acquisitions, only=r"ChanneledWrapper|StoreImpl\\.subscriber-list|all-acquisitions|floor"), X.ch_channeled, C.ch1_arm_purity, C.ch2_result_tells_enqueued, C.ch4_retry_identity,
-                   r(T.st4_callbacks_live_in_the_loop, only=r"channeled|floor"),
+        "rules": R(r(DL.lk0_blocking_acquisitions, only=r"ChanneledWrapper|StoreImpl\.subscriber-list|all-acquisitions|floor"), X.ch_channeled, C.ch1_arm_purity, C.ch2_result_tells_enqueued, C.ch4_retry_identity,
+                   r(T.st4_callbacks_live_in_the_loop, only=r"channeled|NOTIFY|floor"), r(S.su1_mutators, drop=r"append:|floor:push"),
                    S.lc3_release_under_list_lock, T.st1_stop_is_close_plus_join, r(S.cb1_callbacks_hold_no_reentrant_lock, only=r"no-list-lock-in-on_notify|floor"),
                    r(S.su3_shutdown_release, only=r"every-exit-releases|floor:clear")),
-        "explanation": "Static decision: the user's subscriber lives only in the spawned thread's delivery loop (R1,R4,ST4); the forwarder enqueues each notification once, unmodified, under its slot lock and never after release (R3); the channel wrapper never blocks under a drop policy and delivers the newest under DropOldest (CH1,CH2,CH4); release drops the sender, enqueues nothing, then joins - reached atomically with removal from unsubscribe and from the shutdown release (R2,SU2,SU3); defaults are DEFAULT_CAPACITY/BlockOnFull (R5). stop() closes and joins on every path (ST1).",
+        "explanation": "Static decision: the user's subscriber lives only in the spawned thread's delivery loop (R1,R4,ST4); the forwarder enqueues each notification once, unmodified, under its slot lock and never after release (R3); the channel wrapper never blocks under a drop policy and delivers the newest under DropOldest (CH1,CH2,CH4); release drops the sender, enqueues nothing, then joins - reached atomically with removal from unsubscribe and from the shutdown release (R2,SU2,SU3); defaults are DEFAULT_CAPACITY/BlockOnFull (R5). stop() closes and joins on every path (ST1). Forwarders are only ever called from the reducer thread's notify loop, so each channel sees the notifications in reduce order (ST4), and a forwarder leaves the list only through the releasing removals - never by the list being taken or overwritten as a whole, which would skip the drop-sender-and-join (SU1).",
         "not_decided": ["run-time thread identity", "timing"],
     },
     "C11": {
-        "rules": R(E.rp1_reducer_thread_never_unwraps_a_shutdown_slot, r(DL.lk0_blocking_acquisitions, only=r"StoreImpl\\.(pool-slot|sender-slot)|all-acquisitions|floor"), Q.d1_same_store_dispatcher, T.st1_stop_is_close_plus_join, E.e1_collect, E.e2_drain, E.e3_never_inline, E.e4_effect_action,
+        "rules": R(E.rp1_reducer_thread_never_unwraps_a_shutdown_slot, r(DL.lk0_blocking_acquisitions, only=r"StoreImpl\.(pool-slot|sender-slot)|all-acquisitions|floor"), Q.d1_same_store_dispatcher, T.st1_stop_is_close_plus_join, E.e1_collect, E.e2_drain, E.e3_never_inline, E.e4_effect_action,
                    E.e5_total_handover, E.e6_reducer_never_enqueues, E.e7_vector_untouched_between_hooks_and_drain, E.e8_pool_not_capped,
                    Q.q9_dispatch_fails_only_when_closed, r(_ch1_block, name="CH1"),
-                   r(M.mw_table, only=r"store-leaves-effects-alone|count:before_effect")),
+                   r(M.mw_table, only=r"store-leaves-effects-alone|count:before_effect"),
+                   r(DL.l3_no_waiting_under_a_lock, only=r"reducer-thread-never-parks"), r(P.pi1_one_pass_per_action, only=r"every-pass-has|receive events")),
         "explanation": "Static decision: every returned effect is collected into one per-pass vector (E1), the vector the hooks saw is drained completely with exactly one hand-over per variant (E2,MW3) and the store itself never removes effects (MW table), payloads run only inside closures submitted to the pool with no store lock held (E3), Effect::Action re-enters through the ordinary dispatch path on a worker (E4,E6) with the same store's dispatcher (D1), stop() joins the pool (ST1). Total hand-over after stop() took the pool (E5) is a known finding. The pool is not capped below reducer + 2 workers (E8), the submitted job calls its payload exactly once on every path (E3), a dispatch from an effect fails only when the store is closed and the blocking arm cannot time out (Q9,CH1).",
         "not_decided": ["wall-clock non-interference of slow effects"],
     },
     "C12": {
-        "rules": R(r(DL.lk0_blocking_acquisitions, only=r"StoreImpl\\.middleware-list|all-acquisitions|floor"), r(P.pi6_action_identity, only=r"HOOK"), M.mw_table, M.mw5_hooks_on_every_action, P.mw1_hook_state_args,
+        "rules": R(r(DL.lk0_blocking_acquisitions, only=r"StoreImpl\.middleware-list|all-acquisitions|floor"), r(P.pi6_action_identity, only=r"HOOK"), M.mw_table, M.mw5_hooks_on_every_action, P.mw1_hook_state_args,
                    r(E.e2_drain, only=r"MW3:|drain-until-empty|variant-covered|effect-phase-on-every-pass|count:"), E.e7_vector_untouched_between_hooks_and_drain,
                    r(P.s1_single_writer, only=r"writers of the state cell|writer-is-reducer-thread|no-other-mutable-access"),
                    r(P.pi2_phase_order, only=r"order:(HOOK:before_reduce<REDUCE|REDUCE<HOOK:before_effect|HOOK:before_effect<HANDOVER|HOOK:before_dispatch<NOTIFY)"),
@@ -260,33 +269,38 @@ PROPS = {
                    r(T.st1_stop_is_close_plus_join, only=r"closes-first|floor"), Q.q4_close, T.st3_loop_exits,
                    r(S.cb1_callbacks_hold_no_reentrant_lock, only=r"no-state-lock|floor"),
                    r(C.ch1_arm_purity, only=r"drop-arm-never-blocks|paths-complete|arm-present|path-without-policy"), r(X.it_iterator, only=r"feeder-forwards-once:on_unsubscribe|iter-is-capacity-1-blocking"),
-                   r(S.su3_shutdown_release, only=r"every-exit-releases|floor:clear")),
+                   r(S.su3_shutdown_release, only=r"every-exit-releases|floor:clear"), DL.l3_no_waiting_under_a_lock,
+                   r(T.st4_callbacks_live_in_the_loop, only=r"no-unmodelled-user-callback|floor")),
         "explanation": "Static deadlock analysis on context-sensitive inlined call graphs rooted at every entry point of every thread role (client API, reducer thread, pool jobs, channeled thread, iterator consumer), with class-hierarchy resolution of dyn calls into the crate's impls and the property's own model of user callbacks: the lock-order graph is acyclic without self edges (L1); no blocking send/recv/join is performed while holding a lock the unblocking party takes, no role blocks on a channel only it consumes, joined threads are disconnected first (L2, E6); the thread stop() joins is guaranteed its Exit: stop() closes first, close() enqueues Exit under a blocking lock on every path, the loop leaves on Exit (ST1,Q4,ST3). Premises about the leaf wrapper and the joined threads: drop arms never block, the blocking arm is one blocking send (CH1), stop() closes first, close() enqueues Exit on every path and the loop leaves on it (ST1,Q4,ST3), the iterator is released by a blocking Exit send into a channel with a buffer slot (IT2, IT1: with a rendezvous channel the release under the list lock would wait for a consumer that may never call next()), callbacks never run under the state lock (CB1).",
         "not_decided": ["progress inside crossbeam/rusty_pool/std", "a client thread playing two roles itself", "the 3 s timeout masking a hang"],
     },
     "C14": {
-        "rules": R(r(DL.lk0_blocking_acquisitions, only=r"StoreImpl\\.subscriber-list|IteratorFeeder|StateIter|all-acquisitions|floor"), X.it_iterator, S.su5_release_only_on_reducer_thread, P.n3_payload, P.n2_guard,
+        "rules": R(r(DL.lk0_blocking_acquisitions, only=r"StoreImpl\.subscriber-list|IteratorFeeder|StateIter|all-acquisitions|floor"), X.it_iterator, S.su5_release_only_on_reducer_thread, P.n3_payload, P.n2_guard,
                    r(S.su3_shutdown_release, only=r"every-exit-releases|release-after-loop|release-under-list-lock|floor|plain-forward|no-early-exit|in-loop|receiver-from"),
                    S.lc3_release_under_list_lock,
                    r(_ch1_block, name="CH1"), r(_ch2_block, name="CH2"), r(PI3_NOTIFY, name="PI3"),
                    r(P.pi6_action_identity, only=r"NOTIFY"),
                    r(S.su2_unsubscribe, only=r"compares-element-with-own-subscriber|identity-test|removes-exactly-the-identical-element|on_unsubscribe-iff-removed|every-path-removes|waits-for-the-list-lock|retain-under-list-lock|floor"),
-                   M.n4_notify_phase_not_bypassed, r(S.cb1_callbacks_hold_no_reentrant_lock, only=r"no-list-lock-in-on_notify|floor")),
-        "explanation": "Static decision: iter() registers a direct subscriber that forwards each notification once into a capacity-1 blocking (lossless) channel (IT1,IT2,CH1,CH2) fed by the ordinary notify phase (N2,N3,PI3,PI6); Exit is sent by the shutdown release, which every path to the end of the reducer thread passes after the last notification (SU3); next() passes pairs through and is fused, drop detaches (IT3,IT4; exhaustive). The handle removes and releases exactly its own subscriber, once (SU2,LC3); the subscriber loop is not bypassed (N4).",
+                   M.n4_notify_phase_not_bypassed, r(S.cb1_callbacks_hold_no_reentrant_lock, only=r"no-list-lock-in-on_notify|floor"),
+                   r(T.st4_callbacks_live_in_the_loop, only=r"NOTIFY|no-unmodelled-user-callback|floor")),
+        "explanation": "Static decision: iter() registers a direct subscriber that forwards each notification once into a capacity-1 blocking (lossless) channel (IT1,IT2,CH1,CH2) fed by the ordinary notify phase (N2,N3,PI3,PI6); Exit is sent by the shutdown release, which every path to the end of the reducer thread passes after the last notification (SU3); next() passes pairs through and is fused, drop detaches (IT3,IT4; exhaustive). The handle removes and releases exactly its own subscriber, once (SU2,LC3); the subscriber loop is not bypassed (N4). Pairs are fed only from the reducer thread's notify loop - no second notifier can interleave an older pair - and no stored closure object runs on that thread between the last action and the release that sends the end marker (ST4).",
         "not_decided": ["blocking behaviour of dropping an iterator with an unread item (C13's finding)", "timing"],
         "exhaustive": True,
     },
     "C15": {
-        "rules": R(Q.q3_enqueue_under_sender_lock, r(DL.lk0_blocking_acquisitions, only=r"StoreImpl\\.(sender-slot|pool-slot|subscriber-list)|all-acquisitions|floor"), X.ds_droppable, T.st1_stop_is_close_plus_join, Q.q4_close, T.st2_closed_means_err, S.su3_shutdown_release, T.st3_loop_exits,
-                   r(C.ch1_arm_purity, only=r"drop-latest-never-dequeues|paths-complete"), r(X.ch_channeled_release, name="R2")),
-        "explanation": "Static decision: Drop for DroppableStore calls StoreImpl::stop on the wrapped Arc on every path, unconditionally (DS1), Deref hands out that same Arc (DS2), and stop() has the barrier/finality premises of C04 (ST1,Q4,ST2,ST3,SU3). The DropLatest arm never evicts a queued action for Exit (CH1); channeled release disconnects then joins (R2).",
+        "rules": R(Q.q3_enqueue_under_sender_lock, r(DL.lk0_blocking_acquisitions, only=r"StoreImpl\.(sender-slot|pool-slot|subscriber-list)|all-acquisitions|floor"), X.ds_droppable, T.st1_stop_is_close_plus_join, Q.q4_close, T.st2_closed_means_err, S.su3_shutdown_release, T.st3_loop_exits,
+                   r(C.ch1_arm_purity, only=r"drop-latest-never-dequeues|paths-complete"), r(X.ch_channeled_release, name="R2"),
+                   r(DL.l3_no_waiting_under_a_lock, only=r"reducer-thread-never-parks"), r(T.st4_callbacks_live_in_the_loop, only=r"NOTIFY|floor"),
+                   r(P.pi1_one_pass_per_action, only=r"every-pass-has|receive events"), M.n4_notify_phase_not_bypassed),
+        "explanation": "Static decision: Drop for DroppableStore calls StoreImpl::stop on the wrapped Arc on every path, unconditionally (DS1), Deref hands out that same Arc (DS2), and stop() has the barrier/finality premises of C04 (ST1,Q4,ST2,ST3,SU3). The DropLatest arm never evicts a queued action for Exit (CH1); channeled release disconnects then joins (R2). The reducer thread waits for nothing but its queue (L3), every received action goes through the whole pass before the next receive (PI1,N4), and subscribers are only called from that loop, which the drop joins (ST4): nothing is left to be delivered by a pool job or a client thread after the drop returned.",
         "not_decided": ["as C04"],
     },
     "C16": {
         "rules": R(r(DL.lk0_blocking_acquisitions, only=r"SelectorSubscriber|all-acquisitions|floor"), X.se_selector, X.se5_last_value_single_writer, r(PI3_NOTIFY, name="PI3"), P.n2_guard, M.n4_notify_phase_not_bypassed,
                    r(S.su1_mutators, drop=r"removal:clear|floor:clear"),
-                   r(S.su2_unsubscribe, only=r"compares-element-with-own-subscriber|identity-test|removes-exactly-the-identical-element|retain-under-list-lock|floor")),
-        "explanation": "Decided completely (modulo PartialEq being the user's equality) by exhaustive path enumeration of SelectorSubscriber::on_notify: select once (SE1); first/changed => one on_change(selected, action) then store; equal => nothing (SE2); all under the last_value lock (SE3); initial None and plain registration (SE4). The ordinary notify phase reaches every listed subscriber on every notifying action (PI3,N2,N4), and a selector subscription leaves the list only through its own handle: other handles remove exactly their identical element (SU1,SU2).",
+                   r(S.su2_unsubscribe, only=r"compares-element-with-own-subscriber|identity-test|removes-exactly-the-identical-element|retain-under-list-lock|floor"),
+                   r(T.st4_callbacks_live_in_the_loop, only=r"NOTIFY|floor")),
+        "explanation": "Decided completely (modulo PartialEq being the user's equality) by exhaustive path enumeration of SelectorSubscriber::on_notify: select once (SE1); first/changed => one on_change(selected, action) then store; equal => nothing (SE2); all under the last_value lock (SE3); initial None and plain registration (SE4). The ordinary notify phase reaches every listed subscriber on every notifying action (PI3,N2,N4), and a selector subscription leaves the list only through its own handle: other handles remove exactly their identical element (SU1,SU2). on_notify is only ever called from the reducer thread's loop (ST4): the notification stream a selector sees is the reduce-ordered one, with no replay from a client thread racing it.",
         "not_decided": [],
         "exhaustive": True,
     },
